@@ -183,3 +183,26 @@ Example c15_args_example :
   args_load [(["a"], AInt 1); (["a"; "b"], AInt 2)] = LoadPanic /\
   args_load [] = LoadOk None.
 Proof. repeat split. Qed.
+
+Example c15_last_map_merges_example :
+  last_supplier ["db"] [ex_d1; ex_d2; ex_d3] (CMap [("port", CLeaf (AInt 3))]) /\
+  exists kids, getd ["db"] (effective [ex_d1; ex_d2; ex_d3]) = Some (CMap kids).
+Proof.
+  split; [|eexists; reflexivity].
+  exists [ex_d1; ex_d2], ex_d3, []. split; [reflexivity|]. split; [reflexivity|constructor].
+Qed.
+
+(* the hypotheses of the effect half of c15_add_monotone are met by a concrete configuration:
+   os.Args loader, then SetConfig(file), then AddConfigLoader(raw) *)
+Example c15_add_monotone_effect_example :
+  let cur := [ex_args; ex_file] in
+  let o := OAddConfigLoader [ex_raw] in
+  is_adding o = true /\
+  docs_of (sequence (apply_opt Repaired cur o)) = Some [ex_d2; [("db", CMap [("port", CLeaf (AInt 3))])]; ex_d1] /\
+  Forall (fun d => wf_doc d = true) [ex_d2; [("db", CMap [("port", CLeaf (AInt 3))])]; ex_d1] /\
+  In ex_file cur /\ load ex_file = LoadOk (Some ex_d2) /\ getd ["only2"] ex_d2 = Some (CLeaf (AStr "x")) /\
+  getd ["only2"] (effective [ex_d2; [("db", CMap [("port", CLeaf (AInt 3))])]; ex_d1]) = Some (CLeaf (AStr "x")).
+Proof.
+  cbv zeta. split; [reflexivity|]. split; [vm_compute; reflexivity|]. split; [repeat constructor|].
+  split; [right; left; reflexivity|]. repeat split.
+Qed.
